@@ -14,7 +14,7 @@ RULE = ("small-vocabulary configurations (2 pitches, values {12,24}, steps {12,2
         "horizon, one representative stream per state, every (state, token) edge replayed on the implementation; (iii) "
         "streams produced by tokenise from valid pieces: in-bar times against the piece's bar grid, monotone times. "
         "non-trivial = a note token after a rest, bar or signature token")
-SCALE = ('streams of 300 / 120 tokens cycling through the vocabulary with a stride, every prefix checked')
+SCALE = ('streams of 300 / 120 tokens cycling through the vocabulary with a stride, every prefix checked; EVERY signature 2/8..16/8 at resolutions 9, 15, 21, 25, 24 in four stream shapes')
 ASSUMPTIONS = ["values annotated on non-note tokens (NaN or imputed) are not demanded",
                "monotonicity is demanded only for streams produced by tokenise"]
 REQUIRED_FLAGS = ["bar_in_partly_filled_bar", "signature_mid_bar_ignored", "signature_at_bar_start", "bare_running_value_token",
